@@ -847,7 +847,7 @@ func dictCopy(s *scope, args []pyObject) pyObject {
 }
 
 func sorted(s *scope, args []pyObject) pyObject {
-	l, isList := args[0].(pyList)
+	l, isList := asList(args[0])
 	key, isFunc := args[1].(*pyFunc)
 	reverse, isBool := args[2].(pyBool)
 	s.Assert(isList, "Argument seq must be a list, not %s", args[0].Type())
@@ -881,7 +881,7 @@ func sorted(s *scope, args []pyObject) pyObject {
 }
 
 func reversed(s *scope, args []pyObject) pyObject {
-	l, ok := args[0].(pyList)
+	l, ok := asList(args[0])
 	s.Assert(ok, "irreversible type %s", args[0].Type())
 	l = slices.Clone(l)
 	slices.Reverse(l)
@@ -890,7 +890,7 @@ func reversed(s *scope, args []pyObject) pyObject {
 
 func filter(s *scope, args []pyObject) pyObject {
 	f, isFunc := args[0].(*pyFunc)
-	l, isList := args[1].(pyList)
+	l, isList := asList(args[1])
 	s.Assert(isFunc, "Argument filter must be callable, not %s", args[0].Type())
 	s.Assert(isList, "Argument seq must be a list, not %s", args[1].Type())
 
@@ -910,7 +910,7 @@ func filter(s *scope, args []pyObject) pyObject {
 
 func mapFunc(s *scope, args []pyObject) pyObject {
 	mapper, isFunc := args[0].(*pyFunc)
-	l, isList := args[1].(pyList)
+	l, isList := asList(args[1])
 	s.Assert(isFunc, "Argument mapper must be callable, not %s", args[0].Type())
 	s.Assert(isList, "Argument seq must be a list, not %s", args[1].Type())
 
@@ -928,7 +928,7 @@ func mapFunc(s *scope, args []pyObject) pyObject {
 
 func reduce(s *scope, args []pyObject) pyObject {
 	reducer, isFunc := args[0].(*pyFunc)
-	l, isList := args[1].(pyList)
+	l, isList := asList(args[1])
 	s.Assert(isFunc, "Argument reducer must be callable, not %s", args[0].Type())
 	s.Assert(isList, "Argument seq must be a list, not %s", args[1].Type())
 
@@ -1048,7 +1048,7 @@ func pyRangeFunc(s *scope, args []pyObject) pyObject {
 }
 
 func enumerate(s *scope, args []pyObject) pyObject {
-	l, ok := args[0].(pyList)
+	l, ok := asList(args[0])
 	s.Assert(ok, "Argument to enumerate must be a list, not %s", args[0].Type())
 	ret := make(pyList, len(l))
 	for i, li := range l {
@@ -1058,7 +1058,7 @@ func enumerate(s *scope, args []pyObject) pyObject {
 }
 
 func anyFunc(s *scope, args []pyObject) pyObject {
-	l, ok := args[0].(pyList)
+	l, ok := asList(args[0])
 	s.Assert(ok, "Argument to any must be a list, not %s", args[0].Type())
 	for _, li := range l {
 		if li.IsTruthy() {
@@ -1069,7 +1069,7 @@ func anyFunc(s *scope, args []pyObject) pyObject {
 }
 
 func allFunc(s *scope, args []pyObject) pyObject {
-	l, ok := args[0].(pyList)
+	l, ok := asList(args[0])
 	s.Assert(ok, "Argument to all must be a list, not %s", args[0].Type())
 	for _, li := range l {
 		if !li.IsTruthy() {
@@ -1088,7 +1088,7 @@ func maxFunc(s *scope, args []pyObject) pyObject {
 }
 
 func extreme(s *scope, args []pyObject, cmp Operator) pyObject {
-	l, isList := args[0].(pyList)
+	l, isList := asList(args[0])
 	key, isFunc := args[1].(*pyFunc)
 	s.Assert(isList, "Argument seq must be a list, not %s", args[0].Type())
 	s.Assert(len(l) > 0, "Argument seq must contain at least one item")
@@ -1116,18 +1116,20 @@ func extreme(s *scope, args []pyObject, cmp Operator) pyObject {
 
 func zip(s *scope, args []pyObject) pyObject {
 	lastLen := 0
+	seqs := make([]pyList, len(args))
 	for i, seq := range args {
-		si, ok := seq.(pyList)
-		s.Assert(ok, "Arguments to zip must be lists, not %s", si.Type())
+		si, ok := asList(seq)
+		s.Assert(ok, "Arguments to zip must be lists, not %s", seq.Type())
 		// This isn't a restriction in Python but I can't be bothered handling all the stuff that real zip does.
 		s.Assert(i == 0 || lastLen == len(si), "All arguments to zip must have the same length")
 		lastLen = len(si)
+		seqs[i] = si
 	}
 	ret := make(pyList, lastLen)
 	for i := range ret {
-		r := make(pyList, len(args))
-		for j, li := range args {
-			r[j] = li.(pyList)[i]
+		r := make(pyList, len(seqs))
+		for j, li := range seqs {
+			r[j] = li[i]
 		}
 		ret[i] = r
 	}
